@@ -190,15 +190,19 @@ class Variants(core.Layer):
                            descriptions=[w['desc'] for w in self.worlds][:6])
         self.rule = '%d base worlds x %d variants x %d modes' % (len(self.worlds), len(self.variants), len(MODES))
 
+    CHUNK = 5
+
     def nblocks(self):
-        return len(self.worlds) * len(self.variants)
+        self.nchunks = (len(self.variants) + self.CHUNK - 1) // self.CHUNK
+        return len(self.worlds) * self.nchunks
 
     def run_block(self, b, acc):
-        wi = b // len(self.variants)
-        v = self.variants[b % len(self.variants)]
-        for mode in MODES:
-            acc.seq += 1
-            check_case(wi, self.worlds[wi], v, mode, acc)
+        wi = b // self.nchunks
+        c = b % self.nchunks
+        for v in self.variants[c * self.CHUNK:(c + 1) * self.CHUNK]:
+            for mode in MODES:
+                acc.seq += 1
+                check_case(wi, self.worlds[wi], v, mode, acc)
 
     def replay(self, case):
         wj = case['world_json']
